@@ -635,6 +635,20 @@ def macroref(g, thorough, count):
         except RefRefused:
             ref = None
         out.append((head + libtxt + "\n" + body + "\nhlt\n", ref))
+    # macros with more than ten parameters (placeholders of two digits), every parameter used
+    for npar in (10, 11, 12, 13, 21):
+        ps = ["p%d" % i for i in range(npar)]
+        regs_ = ["ax", "bx", "cx", "dx", "si", "di", "bp"]
+        bodyt = " ".join("add %s, %s" % (regs_[i % 7], ps[i]) for i in range(npar)) + " mov ax, %s" % ps[-1]
+        libm = [("wide", ps, bodyt)]
+        args = [str(3 + 2 * i) for i in range(npar)]
+        for use in ("wide(%s)" % ", ".join(args), "wide(%s)" % ", ".join(reversed(args)), "wide(%s)" % ", ".join(args[:-1])):
+            body = "start:\nlab:\n" + use
+            try:
+                ref = "wv: dw 1\n" + ref_expand(body, libm) + "\nhlt\n"
+            except RefRefused:
+                ref = None
+            out.append(("wv: dw 1\nmacro wide(%s) -> %s <-\n" % (",".join(ps), bodyt) + body + "\nhlt\n", ref))
     # every register name, in both cases, in every operand role a macro can put it
     lib = [("u1", ["p"], "push p pop p"), ("u2", ["p"], "inc p"), ("u3", ["p", "q"], "mov p, q"), ("u4", ["p"], "mov p, ax"), ("u5", ["p"], "mov ax, p"),
            ("u6", ["p"], "xchg p, bx"), ("u7", ["p"], "mov word [bx], p"), ("u8", ["p"], "mov cl, p")]
@@ -756,7 +770,8 @@ def cli_cases(g, group, thorough):
         cmds = ["n\n", "next\n", "N\n", " next \n", "print reg\n", "print flags\n", "print mem 0 -> 20\n", "print mem 5:3\n", "print mem :7\n",
                 "PRINT REG\n", "garbage\n", "\n", "print\n", "print mem 9 -> 2\n", "print mem 1048575:5\n", "n n\n", "nextt\n", "print mem 0x10 -> 0x20\n",
                 "print mem 1048575 : 1\n", "print mem 1048570:6\n", "print mem 1048575 : 0\n", "print mem 1048576 -> 1048580\n", "print mem 1048580 : 2\n",
-                "print mem : 1048580\n", "print mem 2097151 -> 2097151\n", "print mem 0 : 1048576\n", "print mem 1048560 : 15\n", "print mem 1048560 : 16\n"]
+                "print mem : 1048580\n", "print mem 2097151 -> 2097151\n", "print mem 0 : 1048576\n", "print mem 1048560 : 15\n", "print mem 1048560 : 16\n",
+                "print\treg\n", "print\tflags\n", "print\tmem\t0\t->\t4\n", "printreg\n", "print  reg\n", "\tprint reg\t\n", "print mem 0->4\n", "PRINT\tREG\n"]
         for i in range(n(250, 2500)):
             mode = i % 4
             src = run_prog(g, with_int3=(mode == 1), with_tf=(mode == 2))
@@ -773,6 +788,12 @@ def cli_cases(g, group, thorough):
             elif end == 2:
                 script += "n"            # premature end of input, last line unterminated
             out.append((flag, src, script))
+        # stepping combined with INT 21h input: prompt answers and program input come from the same stdin
+        rd = "mov bx, 0x300\nmov byte [bx], 5\nmov dx, bx\nmov ah, 0x0A\nint 0x21\nmov ah, 1\nint 0x21\nprint reg\nprint mem 0x300 : 8\n"
+        out.append(("i", "start:\n" + rd, "n\nn\nn\nn\nn\nhello\nn\nn\nXyz\nn\nn\nn\n"))
+        out.append(("i", "start:\nmov ah, 1\nint 0x21\nprint reg\nmov ah, 1\nint 0x21\nprint reg\n", "n\nn\nX\nn\nn\nn\nY\nn\nn\n"))
+        out.append(("-", "start:\nint 3\nmov ah, 1\nint 0x21\nprint reg\nint 3\nmov ah, 1\nint 0x21\nprint reg\n", "print reg\nn\nQ\nn\nR\n"))
+        out.append(("-", "start:\nmov ax, 0x0100\npush ax\npopf\nmov ah, 1\nint 0x21\nprint reg\n", "n\nn\nZ\nn\nn\n"))
         # print commands typed at -i, trap-flag and INT 3 prompts while DS is large
         for seg in (0x0FFF, 0x1000, 0x8000, 0xF000, 0xFFFF):
             for cmd in ("print mem :7", "print mem : 0", "print mem 5 : 3", "print mem 16 -> 20", "print reg", "print flags"):
@@ -825,6 +846,12 @@ def cli_cases(g, group, thorough):
                 long_line = "".join(chr(65 + k % 26) for k in range(n1))
                 out.append(("-", f"start:\nmov bx, 0x300\nmov byte [bx], {cap}\nmov dx, bx\nmov ah, 0x0A\nint 0x21\nmov bx, 0x500\nmov byte [bx], 10\nmov dx, bx\nmov ah, 0x0A\nint 0x21\n"
                             "mov ah, 1\nint 0x21\nprint reg\nprint mem 0x300 : 8\nprint mem 0x500 : 14\n", long_line + "\nsecond\nthird\n"))
+        # lines that lie across byte 8192 / 16384 of the input (refill boundaries of a buffered reader)
+        for first in (8186, 8188, 8190, 8191, 8192, 16380):
+            stdin_ = "x" * first + "\nHELLO\nWORLD\nend\n"
+            out.append(("-", "start:\nmov bx, 0x300\nmov byte [bx], 5\nmov dx, bx\nmov ah, 0x0A\nint 0x21\nmov ah, 1\nint 0x21\nprint reg\nmov ah, 1\nint 0x21\nprint reg\n"
+                        "mov ah, 1\nint 0x21\nprint reg\nprint mem 0x300 : 8\n", stdin_))
+            out.append(("-", "start:\nmov ah, 1\nint 0x21\nprint reg\nmov ah, 1\nint 0x21\nprint reg\nmov ah, 1\nint 0x21\nprint reg\n", stdin_))
         # input lines with white space at their ends (only the line terminator is not part of the line)
         for line in ["ab  \n", "x\t\n", "   \n", " a \n", "ab \r\n", "ab\r\r\n", "ab\n\n", "q \x0c\n"]:
             for cap in (1, 3, 5, 255):
@@ -964,6 +991,13 @@ def cli_cases(g, group, thorough):
                 lines.append("dw [%d,%d]" % (v, c)); put([v % 256, v // 256] * c)
                 touched.append((0, 0))
                 nd = r.randrange(0, 3)
+            if not top and r.random() < 0.2:
+                # an overlay: a filled region, then definitions in an overlapping segment / the same segment again
+                seg = r.choice([0, 0x10, 0x20]); off = 0
+                lines.append("set %d" % seg); lines.append("db [0xEE,48]"); put([0xEE] * 48)
+                touched.append((seg, 0))
+                seg = seg + r.choice([0, 1, 2]); off = 0
+                lines.append("set %d" % seg)
             for k in range(nd):
                 if r.random() < 0.25:
                     seg = r.choice([0, 1, 2, 0x10, 0x1000, 0xFFFF, 0xFFFE, r.randrange(65536)])
